@@ -110,7 +110,7 @@ def model (line : String) : String :=
     match o.alg with
     | "copy" => fin "" (implCopy m0 o.s o.d)
     | "cconv" => fin "" (implConvertCopy m0 o.s o.d (o.sorg != "gray8") grayToRgb)
-    | "fill" =>
+    | "fill" | "fillx" =>
       -- fill_pixels dispatches planar views to static_for_each over the x iterators; for step iterators (subsampled /
       -- transposed planar views) that does not compile (observed by the compile probe, flag bit 0)
       if o.dorg == "rgb8p" && (o.dk == "xstep" || o.dk == "trans" || o.dk == "flipx") && o.pf % 2 == 0 then "err:no-compile"
@@ -122,8 +122,8 @@ def model (line : String) : String :=
       let order := if o.alg == "foreach" then implFillAddrs o.d else specAddrs o.d
       let (m, log) := order.foldl (fun (acc : Mem × List Nat) a => (acc.1.set a ((acc.1.get a + o.arg) % R), acc.1.get a :: acc.2)) (m0, [])
       fin (" log=" ++ ",".intercalate (log.reverse.map toString)) m
-    | "generate" => fin "" (implGenerate m0 o.d (fun k => (o.arg + k) % R))
-    | "tr1" | "trpos" => fin "" (implTransform m0 o.s o.d (fun v => (v * 3 + o.arg) % R))
+    | "generate" | "genx" => fin "" (implGenerate m0 o.d (fun k => (o.arg + k) % R))
+    | "tr1" | "trpos" | "tr1x" => fin "" (implTransform m0 o.s o.d (fun v => (v * 3 + o.arg) % R))
     | "tr2" => fin "" (implTransform2 m0 o.s o.s2 o.d (fun p q => (p + 2 * q + o.arg) % R))
     | _ => "bad-op"
 
@@ -150,12 +150,12 @@ def judge (line obs : String) : String :=
           match o.alg with
           | "copy" => some (o.sv, none, none)
           | "cconv" => some (if o.sorg == "gray8" then o.sv.map grayToRgb else o.sv, none, none)
-          | "fill" => some (List.replicate n o.arg, none, none)
+          | "fill" | "fillx" => some (List.replicate n o.arg, none, none)
           | "equal" => some (o.dv, some ((o.sv.zip o.dv).all (fun p => pixEq o.dorg p.1 p.2)), none)
           | "imgeq" => some (o.dv, some (o.arg == 0 && (o.sv.zip o.dv).all (fun p => pixEq o.dorg p.1 p.2)), none)
           | "foreach" | "foreachpos" => some (o.dv.map (fun v => (v + o.arg) % R), none, some o.dv)
-          | "generate" => some ((List.range n).map (fun k => (o.arg + k) % R), none, none)
-          | "tr1" | "trpos" => some (o.sv.map (fun v => (v * 3 + o.arg) % R), none, none)
+          | "generate" | "genx" => some ((List.range n).map (fun k => (o.arg + k) % R), none, none)
+          | "tr1" | "trpos" | "tr1x" => some (o.sv.map (fun v => (v * 3 + o.arg) % R), none, none)
           | "tr2" => some ((o.sv.zip o.s2v).map (fun p => (p.1 + 2 * p.2 + o.arg) % R), none, none)
           | _ => none
         match expect with
